@@ -22,6 +22,7 @@ PUSH_COMBS = {
     "demux": (None, 2),
     "fold": (1, 1), "reduce": (1, 1), "sort_acc": (1, 1), "sort": (1, 1), "persist": (1, 1),
     "for_each": (1, 1), "fold_keyed": (1, 2), "reduce_keyed": (1, 2), "resolve": (1, 2),
+    "pipe_flatmap_fanout": (2, 1), "pipe_map_flatmap_filter": (1, 1), "pipe_filter_fanout_fold": (2, 1),
 }
 OPS = ["add", "max", "min"]
 
@@ -77,7 +78,7 @@ def nth(i, k):
 
 def n_down(case):
     c = case["comb"]
-    if c in ("fanout", "unzip"):
+    if c in ("fanout", "unzip", "pipe_flatmap_fanout", "pipe_filter_fanout_fold"):
         return 2
     if c == "demux":
         return len(case["downs"])
@@ -122,6 +123,18 @@ def ref_items(case, i):
         return ns
     if c in ("fold_keyed", "reduce_keyed"):
         return sorted(k * 100000 + v for k, v in keyed_map(case).items())
+    if c == "pipe_flatmap_fanout":
+        return [y for x in ns for y in gev(case["g"], x)]
+    if c == "pipe_map_flatmap_filter":
+        return [y for x in ns for y in gev(case["g"], fev(case["f"], x)) if pev(case["q"], y)]
+    if c == "pipe_filter_fanout_fold":
+        kept = [x for x in ns if pev(case["q"], x)]
+        if i == 0:
+            return [fev(case["f"], x) for x in kept]
+        a = case["init"]
+        for x in kept:
+            a = oev(case["o"], a, x)
+        return [a]
     raise KeyError(c)
 
 
@@ -202,6 +215,33 @@ def resolve_send_after_fin(case, res):
         return False
     if res["out"] == "fin" and (not done or s + sent(q) != vals):
         return False
+    return late
+
+
+def pipe_ready_after_done(case, res):
+    """known-finding class: flat_map upstream of fanout polls poll_ready on a downstream whose
+    poll_finalize already answered Done -- and nothing else is wrong"""
+    if case["comb"] != "pipe_flatmap_fanout" or "logs" not in res:
+        return False
+    late = False
+    for i, lg in enumerate(res["logs"]):
+        ready = started = done = False
+        for k, v in lg:
+            if k == "s":
+                if not ready or started or done:
+                    return False
+                ready = False
+            elif k == "r":
+                late = late or done
+                ready = bool(v) and not done
+            else:
+                if done:
+                    return False
+                started, ready, done = True, False, bool(v)
+        ref = ref_items(case, i)
+        s = [v for k, v in lg if k == "s"]
+        if s != ref[:len(s)] or (res["out"] == "fin" and (s != ref or not done)):
+            return False
     return late
 
 
@@ -301,6 +341,12 @@ def c_comb(case, res=None):
         return "(CReduceKeyed %s %s)" % (_OC[case["o"]], ord_)
     if c == "resolve":
         return "(CResolve %s)" % g_bool(case["waker"])
+    if c == "pipe_flatmap_fanout":
+        return "(CPipeFMFanout %s)" % c_gcode(case["g"])
+    if c == "pipe_map_flatmap_filter":
+        return "(CPipeMFF %s %s %s)" % (c_fcode(case["f"]), c_gcode(case["g"]), c_pcode(case["q"]))
+    if c == "pipe_filter_fanout_fold":
+        return "(CPipeFFF %s %s %s %d)" % (c_pcode(case["q"]), c_fcode(case["f"]), _OC[case["o"]], case["init"])
     if c in ("sort_acc", "sort", "for_each"):
         return {"sort_acc": "CSortAcc", "sort": "CSort", "for_each": "CForEach"}[c]
     if c == "map":
@@ -384,15 +430,15 @@ def gen_items(rng, comb, n, nd):
 
 def gen_params(rng, comb):
     d = {}
-    if comb in ("map", "filter_map"):
+    if comb in ("map", "filter_map", "pipe_map_flatmap_filter", "pipe_filter_fanout_fold"):
         d["f"] = rng.choice(FS)
-    if comb in ("filter", "filter_map"):
+    if comb in ("filter", "filter_map", "pipe_map_flatmap_filter", "pipe_filter_fanout_fold"):
         d["q"] = rng.choice(QS)
-    if comb == "flat_map":
+    if comb in ("flat_map", "pipe_flatmap_fanout", "pipe_map_flatmap_filter"):
         d["g"] = rng.choice(GS)
-    if comb in ("fold", "reduce", "fold_keyed", "reduce_keyed"):
+    if comb in ("fold", "reduce", "fold_keyed", "reduce_keyed", "pipe_filter_fanout_fold"):
         d["o"] = rng.choice(OPS)
-    if comb in ("fold", "fold_keyed"):
+    if comb in ("fold", "fold_keyed", "pipe_filter_fanout_fold"):
         d["init"] = rng.below(5)
     if comb == "reduce":
         d["init"] = None if rng.chance(2, 3) else rng.below(9)
